@@ -5,6 +5,8 @@
 From Coq Require Import List NArith ZArith Bool Lia.
 From SK Require Import lib.LGraph lib.C01_GraphLemmas model.C01_Model model.C01_Opts model.C02_Model model.C02_Store
                        proof.C02_Proof proof.C02_Opts proof.C02_OptsEquiv proof.C02_Store proof.C02_StoreCtx.
+(* [extract_k_S] is the definition of model/C02_Store.v (proof/C02_Proof.v has a lemma of that name) *)
+From SK Require Import lib.Reach model.C02_Store.
 Import ListNotations.
 Local Open Scope Z_scope.
 
@@ -97,4 +99,102 @@ Example C02_storeequiv_nonvacuous :
   relabel (N.add 10) (emb_S exS) <> emb_S exS.
 Proof.
   split; [exact (proj1 C02_store_nonvacuous)|]. repeat split; try (vm_compute; congruence).
+Qed.
+
+(** * the contexts commute with renumbering, for every label shape and any start atoms *)
+Section CtxEquivG.
+Variable f : N -> N.
+Hypothesis Hinj : forall a b, f a = f b -> a = b.
+Context {A B : Type}.
+
+Lemma filter_map_swap' {X Y} (p : Y -> bool) (h : X -> Y) (l : list X) :
+  filter p (map h l) = map h (filter (fun x => p (h x)) l).
+Proof. induction l as [|x l IH]; simpl; [reflexivity|]. destruct (p (h x)); simpl; rewrite IH; reflexivity. Qed.
+
+Lemma rmem_map' x l : Reach.mem (f x) (map f l) = Reach.mem x l.
+Proof. change (LGraph.mem (f x) (map f l) = LGraph.mem x l). apply (mem_map_inj Hinj). Qed.
+
+Lemma add_all_map' l : forall S, Reach.add_all (map f l) (map f S) = map f (Reach.add_all l S).
+Proof.
+  induction l as [|x l IH]; intros S; simpl; [reflexivity|]. rewrite rmem_map'.
+  destruct (Reach.mem x S); [apply IH|]. apply (IH (x :: S)).
+Qed.
+
+Lemma knn_g_map (g : lgraph A B) seeds k : knn_g (relabel f g) (map f seeds) k = map f (knn_g g seeds k).
+Proof.
+  unfold knn_g. induction k as [|k IH]; simpl.
+  - apply (add_all_map' seeds []).
+  - rewrite IH. unfold Reach.step.
+    assert (forall S, flat_map (nbrs (relabel f g)) (map f S) = map f (flat_map (nbrs g) S)) as FN.
+    { induction S as [|u S IHS]; simpl; [reflexivity|]. rewrite (nbrs_relabel Hinj), map_app, IHS. reflexivity. }
+    rewrite FN. apply add_all_map'.
+Qed.
+
+Lemma induced_map_g (g : lgraph A B) L : induced_sub (relabel f g) (map f L) = relabel f (induced_sub g L).
+Proof.
+  unfold induced_sub, relabel. simpl. rewrite !filter_map_swap'. f_equal.
+  - f_equal. apply filter_ext. intros [n a]. simpl. apply (mem_map_inj Hinj).
+  - f_equal. apply filter_ext. intros [[a b] x]. simpl. rewrite !(mem_map_inj Hinj). reflexivity.
+Qed.
+
+Theorem ball_sub_equivariant (g : lgraph A B) seeds k : ball_sub (relabel f g) (map f seeds) k = relabel f (ball_sub g seeds k).
+Proof. unfold ball_sub. rewrite knn_g_map. apply induced_map_g. Qed.
+End CtxEquivG.
+
+Theorem ctxS_equivariant (f : N -> N) (Hinj : forall a b, f a = f b -> a = b) (g : sits) k : wf g ->
+  extract_k_S (relabel f g) k = relabel f (extract_k_S g k).
+Proof.
+  intros W. destruct k as [|k]; [apply (rcS_equivariant f Hinj); exact W|].
+  change (extract_k_S (relabel f g) (S k)) with (ball_sub (relabel f g) (node_ids (get_rc_S K_default false false (relabel f g))) (S k)).
+  rewrite (rcS_equivariant f Hinj K_default false false g W), (node_ids_relabel f). apply (ball_sub_equivariant f Hinj).
+Qed.
+
+Example C02_ctxS_equivariant_nonvacuous :
+  wf (emb_S ctxS_ex) /\
+  extract_k_S (relabel (N.add 10) (emb_S ctxS_ex)) 1 = relabel (N.add 10) (extract_k_S (emb_S ctxS_ex) 1) /\
+  node_ids (extract_k_S (relabel (N.add 10) (emb_S ctxS_ex)) 1) = [11%N; 12%N; 13%N; 14%N; 15%N].
+Proof. split; [exact (proj1 C02_ctxS_nonvacuous)|]. split; vm_compute; reflexivity. Qed.
+
+(** * find_unequal_order_edges reports centre atoms, for every label shape and every option setting *)
+Lemma unequal_g_fold (L : list (N * N * xedge)) : forall S n,
+  In n (fold_left (fun S (e : N * N * xedge) => let '(u, v, x) := e in if unequal (fst x) then Reach.add_all [u; v] S else S) L S) <->
+  In n S \/ exists a b x, In (a, b, x) L /\ unequal (fst x) = true /\ (n = a \/ n = b).
+Proof.
+  induction L as [|[[u v] y] L IH]; intros S n; cbn [fold_left].
+  - split; [auto|]. intros [I|(a & b & x & [] & _)]. exact I.
+  - rewrite IH. destruct (unequal (fst y)) eqn:U.
+    + rewrite Reach.add_all_in. cbn [In]. split.
+      * intros [[[E|[E|[]]]|I]|(a & b & x & I & Ux & Hn)].
+        -- right. exists u, v, y. split; [left; reflexivity|auto].
+        -- right. exists u, v, y. split; [left; reflexivity|auto].
+        -- left. exact I.
+        -- right. exists a, b, x. split; [right; exact I|auto].
+      * intros [I|(a & b & x & [E|I] & Ux & Hn)].
+        -- left. right. exact I.
+        -- inversion E; subst. left. left. destruct Hn as [->| ->]; auto.
+        -- right. exists a, b, x. auto.
+    + split.
+      * intros [I|(a & b & x & I & Ux & Hn)]; [left; exact I|]. right. exists a, b, x. split; [right; exact I|auto].
+      * intros [I|(a & b & x & [E|I] & Ux & Hn)]; [left; exact I| |].
+        -- inversion E; subst. congruence.
+        -- right. exists a, b, x. auto.
+Qed.
+
+Theorem unequalS_sub_centre K d m (g : sits) : wf g -> forall n, In n (unequal_nodes_g g) -> In n (node_ids (get_rc_S K d m g)).
+Proof.
+  intros W n I. unfold unequal_nodes_g in I. apply unequal_g_fold in I. destruct I as [[]|(a & b & x & I & U & Hn)].
+  assert (include_x m x = true) as Inc.
+  { unfold include_x. apply orb_true_iff. left. unfold unequal in U. apply andb_true_iff in U. exact (proj2 U). }
+  pose proof (wf_gmapn flat g W) as Wf.
+  assert (node_ids (get_rc_S K d m g) = node_ids (get_rc_x K d m (gmapn flat g))) as -> by (rewrite <- rcS_flat, node_ids_gmapn; reflexivity).
+  assert (exists c, label (gmapn flat g) n = Some c) as (c & Lc).
+  { apply assoc_is_some. fold (node_ids (gmapn flat g)). rewrite node_ids_gmapn.
+    destruct (wf_edge_nodes W I) as (Pa & Pb & _). destruct Hn as [->| ->]; assumption. }
+  assert (inc_end m (gmapn flat g) n) as IE.
+  { destruct Hn as [->| ->].
+    - exists b, x. split; [|exact Inc]. change (adj g a b = Some x). apply wf_in_adj; assumption.
+    - exists a, x. split; [|exact Inc]. change (adj g b a = Some x). apply (wf_adj_iff W). right. exact I. }
+  assert (label (get_rc_x K d m (gmapn flat g)) n = Some (sel_attr K c)) as L.
+  { apply (rcx_nodes K d m (gmapn flat g) Wf). exists c. split; [exact Lc|]. left. split; [exact IE|reflexivity]. }
+  eapply label_some_node; eauto.
 Qed.
